@@ -378,6 +378,9 @@ def layouts(tier, down_so=None):
     ]
     if down_so:
         base.append(dict(name="descending-allocator", env={"LD_PRELOAD": down_so}, pre=[]))
+    if tier != "thorough":
+        # quick tier: the tcache / mmap-threshold-4096 layout is subsumed by mmap-threshold-128+tcache-off
+        base = [l for l in base if l["name"] != "tcache-off+mmap4096"]
     if tier == "thorough":
         base += [
             dict(name="top-pad+perturb", env={"MALLOC_TOP_PAD_": "1048576", "MALLOC_PERTURB_": "90", "C29_PAD": "z" * 70000}, pre=[]),
@@ -491,11 +494,11 @@ def gather_inputs(ctx, rng, res):
     wm = os.path.join(core.VERIF, "corpus", "C29", "witness_macro_decls.c")
     if os.path.exists(wm):
         inputs.append(dict(name="corpus/witness_macro_decls.c", files={"witness_macro_decls.c": open(wm).read()}, args=["witness_macro_decls.c"], options=[]))
-    for i in range(2 if ctx.tier != "thorough" else 10):
+    for i in range(1 if ctx.tier != "thorough" else 10):
         inputs.append(dict(name="macrogen%d" % i, files={"m%d.c" % i: gen_macro_file(rng)}, args=["m%d.c" % i], options=[]))
     cfg_small = ["bsd.c", "openmp.c", "lua.c", "cairo.c", "selinux.c", "libsigc++.cpp", "cppunit.cpp", "googletest.cpp", "emscripten.cpp", "kde.cpp", "sqlite3.c", "libcurl.c"]
     cfg_big = ["python.c", "std.c", "std.cpp", "posix.c", "gnu.c", "qt.cpp", "boost.cpp", "windows.cpp", "wxwidgets.cpp", "gtk.c", "openssl.c", "mfc.cpp", "opencv2.cpp"]
-    pick = rng.sample(cfg_small, 2) if ctx.tier != "thorough" else cfg_small + rng.sample(cfg_big, 3)
+    pick = rng.sample(cfg_small, 1) if ctx.tier != "thorough" else cfg_small + rng.sample(cfg_big, 3)
     for c in pick:
         p = os.path.join(repo, "test", "cfg", c)
         if not os.path.exists(p):
